@@ -9,7 +9,7 @@
 
 use fpdec_core::{i128_div_rounded, ten_pow, Round};
 
-use crate::Decimal;
+use crate::{Decimal, DecimalError};
 #[cfg(doc)]
 use crate::RoundingMode;
 
@@ -52,9 +52,12 @@ impl Round for Decimal {
                 }
             } else {
                 // shift back
-                Self {
-                    coeff: coeff * ten_pow(-n_frac_digits as u8),
-                    n_frac_digits: 0,
+                match coeff.checked_mul(ten_pow(-n_frac_digits as u8)) {
+                    Some(coeff) => Self {
+                        coeff,
+                        n_frac_digits: 0,
+                    },
+                    None => panic!("{}", DecimalError::InternalOverflow),
                 }
             }
         }
